@@ -219,16 +219,17 @@ func (m *MessageAuthenticator) verifyMessageInternal(
 	}
 
 	// Step 4: Compute SPO pool ID from cold key and verify it's registered and active
+	// Steps 4 and 5 are decided under one lock, so that a concurrent
+	// unregistration cannot fall between the two checks.
 	poolID := m.computePoolID(msg.ColdVerificationKey)
-	m.mu.RLock()
-	registered := m.spoPoolIDs[poolID]
-	m.mu.RUnlock()
-	if !registered {
+	m.mu.Lock()
+	defer m.mu.Unlock()
+	if !m.spoPoolIDs[poolID] {
 		return fmt.Errorf("SPO pool %s is not registered or not active", poolID)
 	}
 
 	// Step 5: Verify KES period rotation (opcert number doesn't go backwards)
-	if err := m.verifyKESPeriodRotation(poolID, &msg.OperationalCertificate); err != nil {
+	if err := m.verifyKESPeriodRotationLocked(poolID, &msg.OperationalCertificate); err != nil {
 		return fmt.Errorf("KES period rotation verification failed: %w", err)
 	}
 
@@ -420,6 +421,15 @@ func (m *MessageAuthenticator) verifyKESPeriodRotation(
 ) error {
 	m.mu.Lock()
 	defer m.mu.Unlock()
+	return m.verifyKESPeriodRotationLocked(poolID, opcert)
+}
+
+// verifyKESPeriodRotationLocked is verifyKESPeriodRotation for callers that
+// already hold m.mu.
+func (m *MessageAuthenticator) verifyKESPeriodRotationLocked(
+	poolID string,
+	opcert *OperationalCertificate,
+) error {
 	lastOpCertNumber, exists := m.kesOpCertCache[poolID]
 
 	// If we've seen this pool before, opcert number must be >= previous
